@@ -74,6 +74,8 @@ def build_models(sig, names, extra_meta=None):
                 from .absmodel import concrete_constraint
                 meta['constraints'] = [concrete_constraint(c, names, as_dict_form=False)
                                        for c in ms['cons']]
+            if ms.get('comment'):
+                meta['db_table_comment'] = ms['comment']
             if extra_meta and mn in extra_meta:
                 meta.update(extra_meta[mn])
             attrs = {'__module__': app + '.models',
